@@ -56,22 +56,31 @@ def witness10 : List Bytes :=
   [[0x1b], [0x5b], [0x21], [0x21], [0x6d], [0x61], [0x61], [0x61], [0x61], [0x61], [0xc3, 0xa9],
    [0x61], [0x61], [0x61], [0x61], [0x1b], [0x5b], [0x30], [0x6d]]
 
-/-- `vte_partition` at full strength — "for every string the element ranges are contiguous, from
-0 to the length, on char boundaries" — is **false on the unchanged tree**: for a CSI sequence that
-the parser flags `ignore` or that has more than one intermediate, the iterator drops the sequence's
-bytes from its bookkeeping; the following text range is shifted left and ends inside `é`, and
-`strip_ansi_codes` panics. -/
-theorem vte_partition_false :
-    (∀ c ∈ witness10, IsChar c) ∧ isPartition witness10.flatten = false ∧
-      strip witness10.flatten = .error "byte index is out of range or not a char boundary" ∧
-      elements witness10.flatten = [⟨.text, 0, 11⟩, ⟨.sgr [[0]], 11, 20⟩] := by
-  refine ⟨?_, by decide, by decide, by decide⟩
+theorem witness10_chars : ∀ c ∈ witness10, IsChar c := by
   intro c hc
   simp only [witness10, List.mem_cons, List.not_mem_nil, or_false] at hc
   rcases hc with h | h | h | h | h | h | h | h | h | h | h | h | h | h | h | h | h | h | h <;> subst h
   all_goals first
     | exact .ascii _ (by decide)
     | exact .two _ _ (by decide) (by decide) (by decide)
+
+/-- `vte_partition` at full strength — "for every string the element ranges are contiguous, from
+0 to the length, on char boundaries" — is **false on the unchanged tree** (`csiDropsIgnored`, read
+from the source on every run): for a CSI sequence that the parser flags `ignore` or that has more
+than one intermediate, the iterator drops the sequence's bytes from its bookkeeping; the following
+text range is shifted left and ends inside `é`, and `strip_ansi_codes` panics. -/
+theorem vte_partition_false : Generated.csiDropsIgnored = true →
+    isPartition witness10.flatten = false ∧
+      strip witness10.flatten = .error "byte index is out of range or not a char boundary" ∧
+      elements witness10.flatten = [⟨.text, 0, 11⟩, ⟨.sgr [[0]], 11, 20⟩] := by
+  decide
+
+/-- With the proposed repair (notes/fix-ansi-iterator-ignored-csi.diff) the same line is
+partitioned and stripped correctly. -/
+theorem vte_partition_witness_after_fix : Generated.csiDropsIgnored = false →
+    isPartition witness10.flatten = true ∧
+      strip witness10.flatten = .ok [0x61, 0x61, 0x61, 0x61, 0x61, 0xc3, 0xa9, 0x61, 0x61, 0x61, 0x61] := by
+  decide
 
 /-- The positive part: on every benign line — characters, plain CSI/SGR sequences with at most 32
 parameters, OSC strings; everything git and delta emit — the element ranges are contiguous, start
@@ -192,14 +201,21 @@ theorem unsupported_parameters_differ :
 /-- `truncate_commutes_strip` at full strength — `strip (truncate raw w sym) = truncate (strip raw)
 w sym` — is **false on the unchanged tree**: after the cut (`break` leaves only the inner grapheme
 loop) text of later elements is still appended when it fits, which happens after a double-width
-grapheme was replaced by a space. Witness: `a日 ESC[m b`, width 2: coloured gives `a b`
+grapheme was replaced by a space (`truncStopsAfterCut` is read from the source on every run). Witness: `a日 ESC[m b`, width 2: coloured gives `a b`
 (three columns), uncoloured gives `a `. -/
-theorem truncate_commutes_strip_false :
+theorem truncate_commutes_strip_false : Generated.truncStopsAfterCut = false →
     strip [0x61, 0xe6, 0x97, 0xa5, 0x1b, 0x5b, 0x6d, 0x62] = .ok [0x61, 0xe6, 0x97, 0xa5, 0x62] ∧
     truncate demoUni [0x61, 0xe6, 0x97, 0xa5, 0x1b, 0x5b, 0x6d, 0x62] 2 [] (some [0x20]) =
       .ok [0x61, 0x20, 0x1b, 0x5b, 0x6d, 0x62] ∧
     strip [0x61, 0x20, 0x1b, 0x5b, 0x6d, 0x62] = .ok [0x61, 0x20, 0x62] ∧
     truncate demoUni [0x61, 0xe6, 0x97, 0xa5, 0x62] 2 [] (some [0x20]) = .ok [0x61, 0x20] := by
+  decide
+
+/-- With the proposed repair (notes/fix-truncate-after-cut.diff) the witness commutes. -/
+theorem truncate_witness_after_fix : Generated.truncStopsAfterCut = true →
+    (truncate demoUni [0x61, 0xe6, 0x97, 0xa5, 0x1b, 0x5b, 0x6d, 0x62] 2 [] (some [0x20])).bind strip =
+      (strip [0x61, 0xe6, 0x97, 0xa5, 0x1b, 0x5b, 0x6d, 0x62]).bind
+        (fun p => truncate demoUni p 2 [] (some [0x20])) := by
   decide
 
 /-- The part that holds: a line that fits is returned unchanged, coloured or not, so the stripped
